@@ -186,10 +186,11 @@ func IsLetter(value string) bool {
 
 func (es *SearchEngineState) MATCHWORDSTART(not bool) {
 	if es.currentFileOffset == es.reader.Size() {
+		// no word can start at the end of the input
 		if not {
-			es.BACKTRACK()
-		} else {
 			es.NEXT()
+		} else {
+			es.BACKTRACK()
 		}
 		return
 	}
@@ -230,17 +231,19 @@ func (es *SearchEngineState) MATCHWORDSTART(not bool) {
 
 func (es *SearchEngineState) MATCHWORDEND(not bool) {
 	if es.currentFileOffset == 0 {
+		// no word can end at the start of the input
 		if not {
-			es.BACKTRACK()
-		} else {
 			es.NEXT()
+		} else {
+			es.BACKTRACK()
 		}
 		return
 	}
 
 	current := es.READ(1)
 	if es.currentFileOffset == es.reader.Size() {
-		if !IsLetter(current) {
+		// at the end of the input a word ends exactly when the previous character belongs to one
+		if IsLetter(es.READAT(es.currentFileOffset-1, 1)) {
 			if not {
 				es.BACKTRACK()
 			} else {
